@@ -690,6 +690,22 @@ def on_iteration(H, model, hooks):
             H.in_probe = False
 
 
+def fresh_dfols():
+    """Re-executes the dfols modules in dependency order (importlib.reload keeps the module objects, so every function-level
+    `import dfols.x as dx` of the harness sees the new contents).  Afterwards module-level and class-level state is what a fresh
+    interpreter has right after `import dfols`: the next solve() is 'the first call in this process'.  Used by the C19 sessions:
+    pool workers are long-lived, and state that a first call leaves behind in a class attribute or a module-level cache would
+    otherwise already be there when a session starts (seeded change C19e)."""
+    import importlib
+    import dfols
+    for name in ('util', 'params', 'hessian', 'trust_region', 'model', 'diagnostic_info', 'controller', 'solver'):
+        mod = sys.modules.get('dfols.' + name)
+        if mod is not None:
+            importlib.reload(mod)
+    importlib.reload(dfols)
+    _site_cache.clear()
+
+
 def _alarm(signum, frame):
     raise HarnessTimeout()
 
